@@ -93,6 +93,7 @@ func specSliceCount(byteCount, sliceByteCount int) int {
 //@ func readMainPacket
 //@   props C13 C19 C06
 //@   modifies nothing
+//@   max-alloc len(body)
 //@   ensures implies(result1 == nil, result0.sliceByteCount >= 4 && result0.sliceByteCount % 4 == 0 && len(result0.recoverySet) >= 1)
 
 //@ func nullTerminate
@@ -135,6 +136,7 @@ func specSliceCount(byteCount, sliceByteCount int) int {
 //@ func readIFSCPacket
 //@   props C13 C19 C06
 //@   modifies nothing
+//@   max-alloc len(body)
 //@   ensures implies(result2 == nil, len(result1.checksumPairs) >= 1)
 
 //@ func readRecoveryPacket
@@ -276,7 +278,7 @@ func specSliceCount(byteCount, sliceByteCount int) int {
 //@   requires decoderOK(d)
 //@   ensures implies(gIOFailed && !old(gIOFailed), result != nil)
 //@   loop 0
-//@     invariant d == old(d) && decoderOK(d) && gIOFailed == old(gIOFailed)
+//@     invariant d == old(d) && decoderOK(d) && implies(gIOFailed, old(gIOFailed))
 //@     invariant cap(parityFiles) == 0 || fresh(parityFiles)
 //@   loop 1
 //@     invariant d == old(d) && decoderOK(d)
@@ -322,6 +324,7 @@ func specSliceCount(byteCount, sliceByteCount int) int {
 //@   ensures implies(result1 == nil, gRepairCalls == old(gRepairCalls) + 1 && gRepairOK)
 //@   ensures implies(gRepairCalls == old(gRepairCalls) + 1, (result1 == nil) == gRepairOK && hastype(result1, "github.com/akalin/gopar/rsec16.NotEnoughParityShardsError") == gRepairNotEnough)
 //@   ensures gRepairCalls == old(gRepairCalls) || gRepairCalls == old(gRepairCalls) + 1
+//@   ensures @C02 len(result0.RepairedPaths) == gWritesOK - old(gWritesOK)
 
 // ---- Decoder.Repair: what is written, and what is reported (C02) ------------------
 // Every file handed to WriteFile has exactly the protected length, MD5 and 16k-MD5 and goes to
@@ -382,23 +385,23 @@ func specSliceCount(byteCount, sliceByteCount int) int {
 //@   assert-call append : gLastWriteOK && gLastWritePath == path
 //@   ensures len(result0) == gWritesOK - old(gWritesOK)
 //@   loop 1
-//@     invariant @C14,C18,C20 listsKept(d) && gIOFailed == old(gIOFailed) && gWritesOK == old(gWritesOK)
+//@     invariant @C14,C18,C20 listsKept(d) && implies(gIOFailed, old(gIOFailed)) && gWritesOK == old(gWritesOK)
 //@     invariant @C14,C18,C20 flagsKept(d)
 //@     invariant @C14,C18,C20 len(wasOK) == len(d.fileIntegrityInfos) && fresh(wasOK)
 //@     invariant @C14,C18,C20 forall(q, 0, rangeindex + 1, implies(wasOK[q], !flagged(d.fileIntegrityInfos[q])))
 //@   loop 2
-//@     invariant @C14,C18,C20 listsKept(d) && gIOFailed == old(gIOFailed) && gWritesOK == old(gWritesOK)
+//@     invariant @C14,C18,C20 listsKept(d) && implies(gIOFailed, old(gIOFailed)) && gWritesOK == old(gWritesOK)
 //@     invariant @C14,C18,C20 flagsKept(d)
 //@     invariant @C14,C18,C20 len(wasOK) == len(d.fileIntegrityInfos) && fresh(wasOK) && 0 <= i && i < len(wasOK)
 //@     invariant @C14,C18,C20 forall(q, 0, i + 1, implies(wasOK[q], !flagged(d.fileIntegrityInfos[q])))
 //@   loop 3
-//@     invariant len(repairedPaths) == gWritesOK - old(gWritesOK) && gIOFailed == old(gIOFailed)
+//@     invariant len(repairedPaths) == gWritesOK - old(gWritesOK) && implies(gIOFailed, old(gIOFailed))
 //@     invariant @C14,C18,C20 listsKept(d) && len(wasOK) == len(d.fileIntegrityInfos) && fresh(wasOK)
 //@     invariant @C14,C18,C20 flagsKept(d)
 //@     invariant @C14,C18,C20 forall(q, 0, len(wasOK), implies(wasOK[q], !flagged(d.fileIntegrityInfos[q])))
 //@     invariant @C14,C18,C20 implies(len(repairedPaths) == 0, forall(q, 0, rangeindex + 1, !flagged(d.fileIntegrityInfos[q])))
 //@   loop 4
-//@     invariant len(repairedPaths) == gWritesOK - old(gWritesOK) && gIOFailed == old(gIOFailed)
+//@     invariant len(repairedPaths) == gWritesOK - old(gWritesOK) && implies(gIOFailed, old(gIOFailed))
 //@     invariant @C14,C18,C20 flagsKept(d)
 //@     invariant @C14,C18,C20 listsKept(d) && len(wasOK) == len(d.fileIntegrityInfos) && fresh(wasOK) && 0 <= i && i < len(wasOK) && !wasOK[i]
 //@     invariant @C14,C18,C20 forall(q, 0, len(wasOK), implies(wasOK[q], !flagged(d.fileIntegrityInfos[q])))
@@ -438,13 +441,13 @@ func specSliceCount(byteCount, sliceByteCount int) int {
 //@   skip-safety
 //@   ensures implies(gIOFailed && !old(gIOFailed), result != nil)
 //@   loop 0
-//@     invariant gIOFailed == old(gIOFailed)
+//@     invariant implies(gIOFailed, old(gIOFailed))
 //@   loop 1
-//@     invariant gIOFailed == old(gIOFailed)
+//@     invariant implies(gIOFailed, old(gIOFailed))
 //@   loop 2
-//@     invariant gIOFailed == old(gIOFailed)
+//@     invariant implies(gIOFailed, old(gIOFailed))
 //@   loop 3
-//@     invariant gIOFailed == old(gIOFailed)
+//@     invariant implies(gIOFailed, old(gIOFailed))
 
 //@ func verify
 //@   props C18
@@ -457,7 +460,7 @@ func specSliceCount(byteCount, sliceByteCount int) int {
 //@   skip-safety
 //@   ensures implies(gIOFailed && !old(gIOFailed), result != nil)
 //@   loop 0
-//@     invariant gIOFailed == old(gIOFailed)
+//@     invariant implies(gIOFailed, old(gIOFailed))
 
 //@ func (*Encoder).ComputeParityData
 //@   props C18
@@ -479,14 +482,14 @@ func specSliceCount(byteCount, sliceByteCount int) int {
 //@   assert-call writeFile #1 : volumeCount >= 1 && i + volumeCount <= e.parityShardCount && len(arg0.recoveryPackets) <= volumeCount
 //@   loop 0
 //@     modifies nothing
-//@     invariant gIOFailed == old(gIOFailed)
+//@     invariant implies(gIOFailed, old(gIOFailed))
 //@   loop 1
 //@     modifies nothing
-//@     invariant gIOFailed == old(gIOFailed) && i >= 0 && volumeCount >= 1 && volumeCount <= 131072 && e.parityShardCount <= 65536
+//@     invariant implies(gIOFailed, old(gIOFailed)) && i >= 0 && volumeCount >= 1 && volumeCount <= 131072 && e.parityShardCount <= 65536
 //@     invariant len(parityFile.unknownPackets) == 0
 //@   loop 2
 //@     modifies nothing
-//@     invariant gIOFailed == old(gIOFailed) && j >= 0 && j <= volumeCount && i + volumeCount <= e.parityShardCount
+//@     invariant implies(gIOFailed, old(gIOFailed)) && j >= 0 && j <= volumeCount && i + volumeCount <= e.parityShardCount
 //@     invariant fresh(recoveryFile.recoveryPackets) && e.parityShardCount <= 65536 && len(e.parityShards) >= e.parityShardCount
 //@     invariant len(recoveryFile.recoveryPackets) <= j
 //@     invariant len(parityFile.unknownPackets) == 0 && len(recoveryFile.unknownPackets) == 0
